@@ -306,6 +306,10 @@ type zzTxInfo struct {
 	mintAmt *big.Int
 }
 
+// zzOnlyScript restricts the generated transaction to an ordinary script transfer (ordinary
+// inputs, one script output, no extra/references) with every authorization form: C02's quick tier.
+var zzOnlyScript bool
+
 func zzValidationTx(wide bool) (*VersionedTransaction, *zzTxInfo) {
 	info := &zzTxInfo{}
 	ver := &VersionedTransaction{}
@@ -334,6 +338,9 @@ func zzValidationTx(wide bool) (*VersionedTransaction, *zzTxInfo) {
 		} else if wide {
 			kinds = 2
 		}
+		if zzOnlyScript {
+			kinds = 0
+		}
 		switch vr.Choose(0, kinds) {
 		case 1, 4:
 			d := &DepositData{AssetKey: "0xkey", Transaction: "txid", Index: vr.U64()}
@@ -357,12 +364,13 @@ func zzValidationTx(wide bool) (*VersionedTransaction, *zzTxInfo) {
 		tx.Inputs = append(tx.Inputs, in)
 	}
 	nOut := 1
-	if wide || nIn == 1 { // quick: (1 in, 1-2 out) and (2 in, 1 out); thorough: up to 2 x 2
+	if zzOnlyScript {
+	} else if wide || nIn == 1 { // quick: (1 in, 1-2 out) and (2 in, 1 out); thorough: up to 2 x 2
 		nOut = vr.Choose(1, maxOut)
 	}
 	for i := 0; i < nOut; i++ {
 		o := &Output{Type: vr.U8()}
-		if i > 0 && !wide {
+		if (i > 0 && !wide) || zzOnlyScript {
 			vr.Assume(o.Type == OutputTypeScript) // quick: the change output is an ordinary script output
 		}
 		var b *big.Int
@@ -371,7 +379,8 @@ func zzValidationTx(wide bool) (*VersionedTransaction, *zzTxInfo) {
 		vr.Fill(o.Mask[:])
 		o.Keys = []*crypto.Key{}
 		form := 0
-		if i == 0 && !twoPlain {
+		if zzOnlyScript {
+		} else if i == 0 && !twoPlain {
 			form = vr.Choose(0, 2)
 		} else if wide {
 			form = vr.Choose(0, 1)
@@ -394,7 +403,8 @@ func zzValidationTx(wide bool) (*VersionedTransaction, *zzTxInfo) {
 		tx.Outputs = append(tx.Outputs, o)
 	}
 	var extraKind int
-	if wide {
+	if zzOnlyScript {
+	} else if wide {
 		extraKind = vr.Choose(0, 4)
 	} else {
 		// quick: extra/references only in the combinations some type validator can accept
@@ -432,7 +442,9 @@ func zzValidationTx(wide bool) (*VersionedTransaction, *zzTxInfo) {
 		sigForms = 2
 	}
 	sigForm := 1
-	if !twoPlain {
+	if zzOnlyScript {
+		sigForm = vr.Choose(0, 4)
+	} else if !twoPlain {
 		sigForm = []int{0, 1, 3, 2, 4}[vr.Choose(0, sigForms)]
 	} else if vr.Bool() {
 		sigForm = 2 // a single signature map although there are two inputs (decodable; C05)
@@ -573,6 +585,7 @@ func ZZ_C01_shapes() {
 // its threshold of distinct keys FROM THAT OUTPUT'S OWN KEY LIST, and the signature
 // verifier was asked about exactly those keys, the given signatures and the payload hash.
 func ZZ_C02() {
+	zzOnlyScript = vr.Tier() == 0
 	ver, _ := zzValidationTx(vr.Tier() > 0)
 	l := &zzLedger{asset: ver.Asset, strict: true, narrow: vr.Tier() == 0, manyKeys: true}
 	var err error
